@@ -25,6 +25,7 @@ type c04case struct {
 	kvs      []gen.KV
 	attrVals int
 	dups     int
+	bundle   bool // the last kv is handed over as slog.NewAttrs(key, value): a pre-sized list whose head holds unused slots
 }
 
 func c04gen(r *gen.R) c04case {
@@ -89,6 +90,12 @@ func c04gen(r *gen.R) c04case {
 			c.attrVals++
 		}
 		c.kvs = append(c.kvs, gen.KV{Key: key, Val: v})
+	}
+	// an Attrs bundle built by NewAttrs after the other arguments (often after an attribute with the EMPTY key)
+	if (emptyUsed && r.P(60)) || r.P(5) {
+		c.kvs = append(c.kvs, gen.KV{Key: "bundle~", Val: gen.V{Kind: "i", I: 7, Go: 7}})
+		c.bundle = true
+		n = 0 // (no duplicates in such a list)
 	}
 	// a long list may give a key twice: the member then holds the LAST value given (C07's rule; the record stays one
 	// valid object with one member per key either way)
@@ -206,6 +213,11 @@ func c04main(c *Ctx) {
 				lg.WriteThru(bg, cs.lvl, ts, thePC, cs.msg, attrsOf(cs.kvs))
 				return
 			}
+			if cs.bundle && len(callKVs) > 0 && callKVs[len(callKVs)-1].Key == "bundle~" {
+				args := append(pairsFirst(callKVs[:len(callKVs)-1]), slog.NewAttrs("bundle~", 7))
+				lg.LogAttrs(bg, cs.lvl, cs.msg, args...)
+				return
+			}
 			lg.LogAttrs(bg, cs.lvl, cs.msg, mixedArgs(callKVs)...)
 		})
 		desc := describe(FJSON, cs.name, cs.msg, cs.lvl, cs.caller, cs.kvs)
@@ -266,6 +278,19 @@ func c04main(c *Ctx) {
 			}
 		}
 	})
+}
+
+// pairsFirst: like mixedArgs, but an attribute with the empty key is always given as a plain "", value pair.
+func pairsFirst(kvs []gen.KV) []any {
+	var out []any
+	for _, kv := range kvs {
+		if kv.Key == "" && !(kv.Val.Kind == "group") {
+			out = append(out, "", kv.Val.Go)
+			continue
+		}
+		out = append(out, mixedArgs([]gen.KV{kv})...)
+	}
+	return out
 }
 
 type cv struct{ clause, detail string }
